@@ -148,9 +148,9 @@ class DictRun:
         rounds = 0
         ctx = None
         while True:
-            res = self.runner.run(self.argv(case, skip) + list(more), env_extra=case.env, cpu_s=self.cpu_limit(case), wall_s=900)
+            res = self.runner.run(self.argv(case, skip) + list(more), env_extra=case.env, cpu_s=self.cpu_limit(case), wall_s=max(900, 3 * self.cpu_limit(case) + 300))
             if res["status"] == "wall":   # re-run once before reporting (wall clock never decides)
-                res = self.runner.run(self.argv(case, skip) + list(more), env_extra=case.env, cpu_s=self.cpu_limit(case), wall_s=900)
+                res = self.runner.run(self.argv(case, skip) + list(more), env_extra=case.env, cpu_s=self.cpu_limit(case), wall_s=max(900, 3 * self.cpu_limit(case) + 300))
             final = res
             fs = self.extract_findings(case, res)
             allf.extend(fs)
